@@ -18,6 +18,8 @@ def gen(rng):
         "env_ops": rng.randint(0, 8),
         "env_seed": rng.randrange(1 << 30),
         "late_submit": rng.random() < 0.3,
+        # arguments of the user's shutdown() call: the sweep must happen whatever they are
+        "shut_kwargs": rng.choice([{}, {}, {"cancel_futures": True}, {"cancel_futures": False}, {"wait": False}]),
     }
     return p
 
@@ -48,7 +50,7 @@ def execute(p, chooser):
             det.emit("call", "shutdown")
             pos0 = len(det.S.log)
             me = det.me().name
-            ex.shutdown()
+            ex.shutdown(**p.get("shut_kwargs", {}))
             det.emit("ret", "shutdown", 0)
             # only the call that really performed the shutdown is the one the property speaks about
             primary = any(th == me and op == "deleg.shutdown" for (th, op, _, _, _) in det.S.log[pos0:])
